@@ -80,6 +80,9 @@ type c13Case struct {
 	Chain bool `json:"chain,omitempty"`
 	// Custom: field key stores are of a custom type (not dsig.TLSCertKeyStore)
 	Custom bool `json:"custom_key_store,omitempty"`
+	// CertTail, when non-zero: the signing key is given through SetSPSigningKeyStore with a
+	// certificate whose DER encoding ends in this octet (a blank, a tab, a line end, a NUL)
+	CertTail int `json:"signing_certificate_ends_in_octet,omitempty"`
 }
 
 func c13SP(c c13Case) (*saml2.SAMLServiceProvider, string) {
@@ -114,6 +117,10 @@ func c13SP(c c13Case) (*saml2.SAMLServiceProvider, string) {
 			expected = "KE"
 		}
 		sp.SetSPSigningKeyStore(world.SetterKeyStore(name))
+	}
+	if c.CertTail != 0 {
+		sp.SetSPSigningKeyStore(&saml2.KeyStore{Signer: world.Key("K1"), Cert: world.CertEndingIn("K1", byte(c.CertTail%256)).Raw})
+		expected = "K1"
 	}
 	sp.SignAuthnRequestsAlgorithm = c13Algs[c.Alg]
 	switch c13Canon[c.Canon] {
@@ -207,6 +214,9 @@ func c13ExecOn(sp *saml2.SAMLServiceProvider, expectedKey string, c c13Case) (ke
 		return []string{kp + "reported-certificate-unparsable"}, detail, "ERROR"
 	}
 	expCert := world.Cert(expectedKey)
+	if c.CertTail != 0 {
+		expCert = world.CertEndingIn("K1", byte(c.CertTail%256))
+	}
 	if !bytes.Equal(reported, expCert.Raw) {
 		keys = append(keys, kp+"reported-signing-certificate-is-not-the-configured-one/keys="+k.String())
 	}
@@ -703,7 +713,7 @@ func c13Run(r *mc.Run) {
 	if r.Thorough() {
 		bound = 2
 	}
-	r.Rule = "full product key configuration(15: every non-empty subset of {encryption field, encryption setter, signing field, signing setter}, a distinct key per slot) x signature algorithm(6: unset, rsa-sha1/256/384/512, ecdsa-sha256 with a setter-supplied P-256 signer) x canonicaliser(8) x message kind(3) (logout kinds with SignAuthnRequests on and off; field key stores also as certificate chains and as a key store of a custom type), with <=1 (quick) / <=2 (thorough) of 12 configuration strings taken from a 17-value special-character alphabet; oracle = the recipient: re-parse from bytes, goxmldsig verification with exactly the reported certificate, declared algorithms, embedded certificate, placement after Issuer, metadata signing key; plus every operation sequence of <=4 (quick) / <=5 (thorough) steps over {SetSPKeyStore(key|nil), SetSPSigningKeyStore(key1|key2|nil), build of each kind} ending in a build, from two initial field configurations, replayed on a fresh instance: the last message must verify with the certificate the statement's rule picks from the setters in force at that moment (keys replaced after the instance has already signed); plus two providers handed the very same key store object (setter *KeyStore for the encryption or signing slot, or one X509KeyStore value in the field), full product (algorithm(4) x canonicaliser(3)) of each x 3 kind pairs x 3 slots, building A, B, A, B: each message follows the configuration of the provider that built it; plus the exported Sign* methods on a caller-owned element that is signed, changed in place (ID, Issuer, one more child) and signed again, kind(3) x algorithm(4) x canonicaliser(4): both messages verify with their own values and the first still serialises as it did. non-trivial = a signed document was produced and verified; distinct = distinct case"
+	r.Rule = "full product key configuration(15: every non-empty subset of {encryption field, encryption setter, signing field, signing setter}, a distinct key per slot) x signature algorithm(6: unset, rsa-sha1/256/384/512, ecdsa-sha256 with a setter-supplied P-256 signer) x canonicaliser(8) x message kind(3) (logout kinds with SignAuthnRequests on and off; signing certificates whose DER encoding ends in a blank, tab, line-end or NUL octet; field key stores also as certificate chains and as a key store of a custom type), with <=1 (quick) / <=2 (thorough) of 12 configuration strings taken from a 17-value special-character alphabet; oracle = the recipient: re-parse from bytes, goxmldsig verification with exactly the reported certificate, declared algorithms, embedded certificate, placement after Issuer, metadata signing key; plus every operation sequence of <=4 (quick) / <=5 (thorough) steps over {SetSPKeyStore(key|nil), SetSPSigningKeyStore(key1|key2|nil), build of each kind} ending in a build, from two initial field configurations, replayed on a fresh instance: the last message must verify with the certificate the statement's rule picks from the setters in force at that moment (keys replaced after the instance has already signed); plus two providers handed the very same key store object (setter *KeyStore for the encryption or signing slot, or one X509KeyStore value in the field), full product (algorithm(4) x canonicaliser(3)) of each x 3 kind pairs x 3 slots, building A, B, A, B: each message follows the configuration of the provider that built it; plus the exported Sign* methods on a caller-owned element that is signed, changed in place (ID, Issuer, one more child) and signed again, kind(3) x algorithm(4) x canonicaliser(4): both messages verify with their own values and the first still serialises as it did. non-trivial = a signed document was produced and verified; distinct = distinct case"
 	r.Assume("goxmldsig's validator as the recipient's verifier (trusted base)")
 	var cases []c13Case
 	nk := len(c13AllKeys())
@@ -724,6 +734,12 @@ func c13Run(r *mc.Run) {
 					}
 				}
 			}
+		}
+	}
+	// signing certificates whose encoding ends in an octet that reads as white space (256 = NUL)
+	for _, tail := range []int{0x20, 0x09, 0x0a, 0x0d, 256} {
+		for _, kind := range []string{"AuthnRequest", "LogoutRequest", "LogoutResponse"} {
+			cases = append(cases, c13Case{Keys: 9, Kind: kind, Str: make([]int, sCount), CertTail: tail})
 		}
 	}
 	n0 := len(cases)
